@@ -8,6 +8,8 @@ Decided structural clauses:
  D4 the evaluation summaries are computed from the same two sequences and the same total
  D5 earlier calculated classes are only extended by test_data
  D6 only data that went through the out-of-range removal is classified
+ D7 unlabelled samples are set aside: the first component returned by split_without_labels is the unlabelled part, and both
+    consumers (learning initialisation, test_data) treat the first component as omitted and classify / learn on the second
 Not decided: that the arg-max index is the label, correctness of the densities."""
 import ast
 
@@ -289,6 +291,9 @@ def run(prog, ctx):
                   "earlier calculated classes are kept as the prefix of the new array",
                   "test_data overwrites the classes calculated for earlier data: `%s`" % src(s.stmt))
 
+    # ------------------------------------------------------------------ D7
+    check_unlabelled_set_aside(prog, ctx)
+
     # ------------------------------------------------------------------ D6
     n6 = 0
     for fq in (CLS + ".__call__", CLS + ".test_data"):
@@ -327,3 +332,61 @@ def run(prog, ctx):
     ctx.check(ok, "C19.D6", R.key_of(isc, "out-of-range-removal"), isc.loc(rms[0]) if rms else isc.loc(),
               "every returned data set had its samples below/above the learned range removed",
               "_internal_scaling does not remove both the samples below and above the learned range from the data it returns on every path")
+
+
+def check_unlabelled_set_aside(prog, ctx):
+    sw = prog.func(DS + ".split_without_labels")
+    ctx.touch(sw)
+    tm = Terms(sw.node, max_depth=0)
+    rets = R.return_paths(sw)[0]
+    order = None
+    if rets and isinstance(rets[0].ast.value, ast.Tuple) and len(rets[0].ast.value.elts) == 2:
+        kinds = []
+        for e in rets[0].ast.value.elts:
+            k = None
+            if isinstance(e, ast.Name):
+                b = tm.env.single(e.id)
+                if b is not None and b.kind == "assign":
+                    t = Terms(sw.node).term(b.value)
+                    txt = show(t)
+                    if "== -1" in txt or "-1 ==" in txt:
+                        k = "unlabelled"
+                    elif "0 <=" in txt or ">= 0" in txt:
+                        k = "labelled"
+            kinds.append(k)
+        order = kinds
+    ctx.check(order == ["unlabelled", "labelled"], "C19.D7", R.key_of(sw, "returns-unlabelled-first"), sw.loc(),
+              "split_without_labels returns (unlabelled, labelled)",
+              "split_without_labels returns its parts in the order %s, its consumers expect (unlabelled, labelled)" % order)
+    for fq, learn_attr in ((CLS + "._initialize", "_scaled_data"), (CLS + ".test_data", None)):
+        fi = prog.func(fq)
+        ctx.touch(fi)
+        tmf = Terms(fi.node, max_depth=0)
+        calls = R.calls_in(fi.node, method="split_without_labels")
+        ok = len(calls) == 1
+        why = "split_without_labels is not called exactly once"
+        if ok:
+            par = getattr(calls[0], "_parent", None)
+            ok = isinstance(par, ast.Assign) and isinstance(par.targets[0], ast.Tuple) and len(par.targets[0].elts) == 2
+            why = "the two parts are not unpacked"
+        if ok:
+            first, second = par.targets[0].elts
+            first_t, second_t = tmf.term(first), tmf.term(second)
+            om = ("a", ("n", "self"), "_omitted_data")
+            # first -> omitted
+            if first_t == om:
+                ok1 = True
+            else:
+                ok1 = any(x.func.attr == "concatenate" and tmf.term(x.func.value) == om and x.args and tmf.term(x.args[0]) == first_t
+                          for x in R.calls_in(fi.node, method="concatenate"))
+            # second -> used for learning / classification
+            if learn_attr:
+                ok2 = any(s.kind == "plain" and tmf.term(s.value) == second_t for s in R.self_stores(fi, learn_attr))
+            else:
+                ok2 = any(x.args and tmf.term(x.args[0]) == second_t for x in R.calls_in(fi.node, method="_classificate"))
+            ok = ok1 and ok2
+            why = "the first part is %s the omitted data, the second part is %s what is %s" % (
+                "" if ok1 else "NOT", "" if ok2 else "NOT", "learned from" if learn_attr else "classified")
+        ctx.check(ok, "C19.D7", R.key_of(fi, "unlabelled-set-aside"), fi.loc(),
+                  "the unlabelled part goes to the omitted data, the labelled part is learned from / classified",
+                  "%s: %s" % (fi.name, why))
